@@ -292,52 +292,52 @@ def fill(claim, na):
 EXTRA = {
     'C01': 'Also: result dtype of concatenate is accumulated over ALL operands (no last-wins '
            'update in the loop); `A[inds] = B` zeroes the addressed blocks unconditionally '
-           'before copying; index bounds are inclusive (index == size rejected). A slice bound -E is reached only under conditions that exclude E == 0 (propositional decision over the enclosing tests and early exits, or at every call site of the private worker) (SLICE-neg-zero).',
+           'before copying; index bounds are inclusive (index == size rejected). A slice bound -E is reached only under conditions that exclude E == 0 (propositional decision over the enclosing tests and early exits, or at every call site of the private worker) (SLICE-neg-zero). One-for-many list splices at the loop variable run over descending positions; the default position of a combined leg does not depend on the order of the groups; a tensor permuted with Array.permute is rewritten in the blocks of its partner before a block-by-block leg comparison.',
     'C02': 'Also: a leg that keeps only some rows of the charges (project) inherits `bunched` '
-           'only under a witness, never from the old flag alone. Every self.X read in charges.py / np_conserved.py names an attribute bound in the class family (ATTR-defined). The dtype claim of a blockwise result follows all blocks (DTYPE-blocks).',
+           'only under a witness, never from the old flag alone. Every self.X read in charges.py / np_conserved.py names an attribute bound in the class family (ATTR-defined). The dtype claim of a blockwise result follows all blocks (DTYPE-blocks). The list _data shared with shallow copies changes its length only by re-binding (COUPLED-shared-list, positive control); numpy-constructed blocks carry the declared dtype; isort_qdata / _imake_contiguous never permute shared storage in place.',
     'C03': 'Also: helpers that normalise a list argument never hand the caller\'s own list back '
-           'into a stored attribute (MPO._get_Id). In classes with a shallow copy() no method replaces one per-site list and element-updates a sibling list (COPY-mixed-update).',
+           'into a stored attribute (MPO._get_Id). In classes with a shallow copy() no method replaces one per-site list and element-updates a sibling list (COPY-mixed-update). get_theta returns a get_B result only with copy=True; state-changing MPS methods (transitive closure) are only called on copies of operand states; the \'benign in-place\' assumption of the ownership analysis is itself checked (OWN-benign-rebind).',
     'C04': 'Also: where both twins sweep an array with counted loops, the swept index regions '
            '(first / last index as polynomials of the loop bounds) agree (PAIR-regions); a '
            'transposition skipped under a comparison with range(..) must be guarded by a test '
            'that sees the order of every sequence the permutation is built from '
-           '(PAIR-skip-transpose). An error that both twins raise is raised under the same conditions (PAIR-raise-guards); the first and the accumulating BLAS call of a block product use the same transposition options (PAIR-accumulate-options).',
+           '(PAIR-skip-transpose). An error that both twins raise is raised under the same conditions (PAIR-raise-guards); the first and the accumulating BLAS call of a block product use the same transposition options (PAIR-accumulate-options). In every kernel (python and pyx) the transposition of an operand precedes the sort of its block list and the leg comparison; in-place updates both twins perform have the same branch conditions; __setstate__ derives python-only cached fields like __init__.',
     'C05': 'Also: hidden pipes of U and VH are split independently of each other; the number of '
            'inner indices marked per block comes from the factor actually produced, not from '
-           'the input block shape. dtype never in an integer slot of np.eye / np.tri / np.diag (FACT-numpy-roles). Generic exact dataflow facts on the anchor files: no result of a call is bound to a local that reaches no read (VALUE-dead, reaching definitions on the CFG). The polynomial charge interpreter also runs the full_matrices=True branch of _svd_worker (diagonal blocks, case split over np.any(qtotal != 0)); every charge sector gets a block in the full unitaries (FACT-full-unitary); values left by a search loop are re-assigned on the not-found path; the R factor returned by qr_li is triangular on every path (typestate).',
+           'the input block shape. dtype never in an integer slot of np.eye / np.tri / np.diag (FACT-numpy-roles). Generic exact dataflow facts on the anchor files: no result of a call is bound to a local that reaches no read (VALUE-dead, reaching definitions on the CFG). The polynomial charge interpreter also runs the full_matrices=True branch of _svd_worker (diagonal blocks, case split over np.any(qtotal != 0)); every charge sector gets a block in the full unitaries (FACT-full-unitary); values left by a search loop are re-assigned on the not-found path; the R factor returned by qr_li is triangular on every path (typestate). The fallback LAPACK call receives every option of the primary call; no x / |x| of a possibly vanishing diagonal entry in qr.',
     'C06': 'Also: split_legs works on the sorted list of axes; a pipe replaced inside the loop '
-           'over given pipes is written back to the list that is returned. Generic exact dataflow facts on the anchor files: no result of a call is bound to a local that reaches no read (VALUE-dead, reaching definitions on the CFG).',
+           'over given pipes is written back to the list that is returned. Generic exact dataflow facts on the anchor files: no result of a call is bound to a local that reaches no read (VALUE-dead, reaching definitions on the CFG). One permutation re-orders co-indexed arrays by gather or by scatter, not both; blocks are reshaped in C order only (positive control).',
     'C07': 'Also: a one-site read-modify-write through get_B/set_B is not separated by a write '
            'to another (possibly identical) site; _scale_axis_B applies S**form_diff for every '
-           'value form_diff is compared with (finite case analysis over -1, -1/2, 0, 1/2, 1). dtypes of operators over a list of tensors (TransferMatrix) are promoted over all elements; stored tensors that enlarge_mps_unit_cell shares between sites are re-bound, not updated in place. Generic exact dataflow facts on the anchor files: no result of a call is bound to a local that reaches no read (VALUE-dead, reaching definitions on the CFG); every self.X read names an attribute bound in the class family (ATTR-defined). A bond leg is read from the side of the tensor that carries it (LEG-side-direction); a flag initialised per iteration is not hoisted out of a loop that resets it (LOOP-carried-flag).',
+           'value form_diff is compared with (finite case analysis over -1, -1/2, 0, 1/2, 1). dtypes of operators over a list of tensors (TransferMatrix) are promoted over all elements; stored tensors that enlarge_mps_unit_cell shares between sites are re-bound, not updated in place. Generic exact dataflow facts on the anchor files: no result of a call is bound to a local that reaches no read (VALUE-dead, reaching definitions on the CFG); every self.X read names an attribute bound in the class family (ATTR-defined). A bond leg is read from the side of the tensor that carries it (LEG-side-direction); a flag initialised per iteration is not hoisted out of a loop that resets it (LOOP-carried-flag). from_Bflat decides on canonical_form() from the bond dimensions of the constructed state, also for a one-site infinite unit cell.',
     'C09': 'Also: tensors fed into a state built with form=None come from get_B(form=None) on '
            'every site (bond coverage); spatial_inversion reverses the list of forms as well as '
-           'swapping each pair. permute_sites moves site i to perm[i] (read off its sorting loop): the docstring states that map and callers that gather a companion list with a permutation pass its inverse. A Jordan-Wigner offset is applied once (OFFSET-once); an error accumulator is never overwritten inside its loop.',
+           'swapping each pair. permute_sites moves site i to perm[i] (read off its sorting loop): the docstring states that map and callers that gather a companion list with a permutation pass its inverse. A Jordan-Wigner offset is applied once (OFFSET-once); an error accumulator is never overwritten inside its loop. Every site lookup in a function with an i_offset includes it; no stale per-item variable is read in a loop (LOOP-stale-read).',
     'C10': 'Also: on-site weights when merging MPO on-site terms into bonds (1 at a finite '
            'boundary, 1/2 elsewhere) in both implementations; the basis permutation that undoes '
            'charge sorting is the inverse permutation; bond_energies uses the same bond '
            'convention as H_bond; the fermionic reordering sign travels with the term into the '
-           'hermitian-conjugate call. Generic exact dataflow facts on the anchor files: no result of a call is bound to a local that reaches no read (VALUE-dead, reaching definitions on the CFG); every self.X read names an attribute bound in the class family (ATTR-defined). Index conversions between lattice and MPS order are undone with the matching inverse (INDEX-wrap); a per-bond accumulator is not mixed with its sibling (ACCUM-mixed).',
+           'hermitian-conjugate call. Generic exact dataflow facts on the anchor files: no result of a call is bound to a local that reaches no read (VALUE-dead, reaching definitions on the CFG); every self.X read names an attribute bound in the class family (ATTR-defined). Index conversions between lattice and MPS order are undone with the matching inverse (INDEX-wrap); a per-bond accumulator is not mixed with its sibling (ACCUM-mixed). Periodic index equality is tested as (a - b) % L == 0; consumers of CouplingTerms.to_TermList() do not put the identity between operators (one known finding: the dense exporters).',
     'C11': 'Also: MPO.plus_identity: the exponents of beta**(1/N) collected along every path '
            'through the blocks (start C, middle A, end B, on-site D) add up to N as exact '
            'polynomial identities in the positions of the term relative to the chosen sites, '
-           'and the two identity chains carry beta exactly once (WEIGHT-path). Generic exact dataflow facts on the anchor files: no result of a call is bound to a local that reaches no read (VALUE-dead, reaching definitions on the CFG); every self.X read names an attribute bound in the class family (ATTR-defined). A dict parameter is never **-expanded into a method that declares that parameter itself (CALL-dict-forward); a value read from one end of a sequence is not used after a store to the other end (ALIAS-ends); both carry positive-control fixtures. The period used in the convergence test of expectation_value_power is the one of the object iterated over (RANGE-period-mixed).',
+           'and the two identity chains carry beta exactly once (WEIGHT-path). Generic exact dataflow facts on the anchor files: no result of a call is bound to a local that reaches no read (VALUE-dead, reaching definitions on the CFG); every self.X read names an attribute bound in the class family (ATTR-defined). A dict parameter is never **-expanded into a method that declares that parameter itself (CALL-dict-forward); a value read from one end of a sequence is not used after a store to the other end (ALIAS-ends); both carry positive-control fixtures. The period used in the convergence test of expectation_value_power is the one of the object iterated over (RANGE-period-mixed). Site tensors that go straight into a contraction are fetched with an explicit canonical form; decision table of MPO.overlap over the two explicit_plus_hc flags; from_Wflat permutes both physical legs.',
     'C12': 'Also: change_charge does not update the (possibly shared) state_labels dict in '
-           'place. Generic exact dataflow facts on the anchor files: no result of a call is bound to a local that reaches no read (VALUE-dead, reaching definitions on the CFG); every self.X read names an attribute bound in the class family (ATTR-defined).',
+           'place. Generic exact dataflow facts on the anchor files: no result of a call is bound to a local that reaches no read (VALUE-dead, reaching definitions on the CFG); every self.X read names an attribute bound in the class family (ATTR-defined). The on-site Jordan-Wigner factor of a two-site term is attached to the left operator in both builders; composing a permutation into Site.perm sets used_sort_charge.',
     'C13': 'Also: IdL / IdR / bond dimension used on one per-bond array in the mixers belong to '
            'the same MPO bond (index polynomials; get_IdL(i) = bond i, get_IdR(i) and the wR leg '
            'of W_i = bond i+1); adjoint() of OneSiteH / TwoSiteH conjugates every tensor that '
-           'matvec / to_matrix contract, in the combined configuration too. Generic exact dataflow facts on the anchor files: no result of a call is bound to a local that reaches no read (VALUE-dead, reaching definitions on the CFG); every self.X read names an attribute bound in the class family (ATTR-defined). The final canonicalisation after a DMRG run is independent of the environment-sweep branch (HOOKS-final-canonical).',
+           'matvec / to_matrix contract, in the combined configuration too. Generic exact dataflow facts on the anchor files: no result of a call is bound to a local that reaches no read (VALUE-dead, reaching definitions on the CFG); every self.X read names an attribute bound in the class family (ATTR-defined). The final canonicalisation after a DMRG run is independent of the environment-sweep branch (HOOKS-final-canonical). One-site fallback calls of mix_and_decompose_2site run under the flag that fits move_right; UniformMPS.to_MPS canonicalises on every path to its return.',
     'C14': 'Also: stepping methods outside the run path (TEBDEngine.update_imag) advance '
-           'evolved_time by N_steps times the same step as update(). Generic exact dataflow facts on the anchor files: no result of a call is bound to a local that reaches no read (VALUE-dead, reaching definitions on the CFG); every self.X read names an attribute bound in the class family (ATTR-defined). The memo key of calc_U is published only after the gates are complete: nothing that can raise is CFG-reachable after the key store (CACHE-key-after-value); order conditions of the fourth-order Suzuki constants on folded literals (TROTTER-order).',
+           'evolved_time by N_steps times the same step as update(). Generic exact dataflow facts on the anchor files: no result of a call is bound to a local that reaches no read (VALUE-dead, reaching definitions on the CFG); every self.X read names an attribute bound in the class family (ATTR-defined). The memo key of calc_U is published only after the gates are complete: nothing that can raise is CFG-reachable after the key store (CACHE-key-after-value); order conditions of the fourth-order Suzuki constants on folded literals (TROTTER-order). force_prepare_evolve is set on every path after update_time_parameter; the TDVP basis expansion clears the environments unconditionally.',
     'C15': 'Also: dimensional analysis of svd_theta / eigh_rho (degree under rescaling of the '
            'input, power of the kept norm, spectrum power): truncate() receives a normalised '
            'spectrum of singular values and the returned S / renormalization / W have the '
            'documented degrees; the degeneracy mask always allows cut 0; no tensor method that '
-           'returns a new tensor is called for effect in truncation.py (TRUNC-value-dropped). Generic exact dataflow facts on the anchor files: no result of a call is bound to a local that reaches no read (VALUE-dead, reaching definitions on the CFG). Every reader of a truncation option outside truncate() agrees with truncate()\'s default, reads after a truncating call on the same parameters, or handles the default at once (Config.get stores missing defaults) (OPTION-default-first).',
+           'returns a new tensor is called for effect in truncation.py (TRUNC-value-dropped). Generic exact dataflow facts on the anchor files: no result of a call is bound to a local that reaches no read (VALUE-dead, reaching definitions on the CFG). Every reader of a truncation option outside truncate() agrees with truncate()\'s default, reads after a truncating call on the same parameters, or handles the default at once (Config.get stores missing defaults) (OPTION-default-first). A spectrum is not modified in place between taking its norm and dividing by it.',
     'C16': 'Also: GMRES.reset() prepares the per-cycle state by the same expressions as '
            '__init__ (rs[0] read as rs[-1]) and the first Krylov vector is the residual divided '
-           'by its own norm, e1 scaled with that norm. Generic exact dataflow facts on the anchor files: no result of a call is bound to a local that reaches no read (VALUE-dead, reaching definitions on the CFG); every self.X read names an attribute bound in the class family (ATTR-defined).',
+           'by its own norm, e1 scaled with that norm. Generic exact dataflow facts on the anchor files: no result of a call is bound to a local that reaches no read (VALUE-dead, reaching definitions on the CFG); every self.X read names an attribute bound in the class family (ATTR-defined). The cache reset of a run is not followed by a cache-filling call (forward dataflow); the convergence test of LanczosEvolution reads the normalised result only; the default of `normalize` is the documented expression.',
     'C17': 'Also: a from_hdf5 that rebuilds through cls(..) passes every loaded value to the '
            'constructor parameter that determines the attribute saved under that key (data / '
            'control dependence through __init__ and helpers); the own object is memorized before '
@@ -345,17 +345,17 @@ EXTRA = {
            'reads only assigned attributes (property setters and __setstate__ modelled); the '
            'compact masked-array format is chosen under a universally quantified condition; the '
            'simple-key predicate for dicts rejects \'\', \'.\', keys with \'/\' and non-strings '
-           '(constant folding on witnesses). Generic exact dataflow facts on the anchor files: no result of a call is bound to a local that reaches no read (VALUE-dead, reaching definitions on the CFG); every self.X read names an attribute bound in the class family (ATTR-defined). The dict part and the slot part of a pickle state are applied independently; every field read by from_hdf5 is paired with the key of the same name over all assignment targets.',
+           '(constant folding on witnesses). Generic exact dataflow facts on the anchor files: no result of a call is bound to a local that reaches no read (VALUE-dead, reaching definitions on the CFG); every self.X read names an attribute bound in the class family (ATTR-defined). The dict part and the slot part of a pickle state are applied independently; every field read by from_hdf5 is paired with the key of the same name over all assignment targets. create_group_for_obj memorizes on every path; Config.save_hdf5 saves self.options itself; __setstate__ agrees with __init__ on derived attributes.',
     'C18': 'Also: in-place preparations of psi in init_state sit under `not hasattr(self, '
            '"psi")`; overrides receiving resume_data (named or through **kwargs of '
            'constructors) forward it to the base implementation; resume_from_checkpoint does '
            'not pass `sequential` twice to run_seq_simulations nor the output_filename generated '
-           'for the resumed simulation. Generic exact dataflow facts on the anchor files: no result of a call is bound to a local that reaches no read (VALUE-dead, reaching definitions on the CFG); every self.X read names an attribute bound in the class family (ATTR-defined). Methods that receive entries of the simulation parameters do not write them in place (OPTIONS-readonly); reads of the last statistics entry reachable from stopping_criterion() are dominated by an emptiness test (RESUME-empty-stats); measurements at algorithm checkpoints are connected with a priority above the checkpoint save; try/finally is modelled in the crash typestate.',
+           'for the resumed simulation. Generic exact dataflow facts on the anchor files: no result of a call is bound to a local that reaches no read (VALUE-dead, reaching definitions on the CFG); every self.X read names an attribute bound in the class family (ATTR-defined). Methods that receive entries of the simulation parameters do not write them in place (OPTIONS-readonly); reads of the last statistics entry reachable from stopping_criterion() are dominated by an emptiness test (RESUME-empty-stats); measurements at algorithm checkpoints are connected with a priority above the checkpoint save; try/finally is modelled in the crash typestate. Attributes an algorithm accumulates over its run are in the resume data; overrides read the resume data before the base init_algorithm consumes it; the sequential index is stored before the parameters are copied.',
     'C19': 'Also: every floor division in mps2lat_idx / lat2mps_idx is exact by a '
            'multiple-of fact (difference to the own residue); a field from which a recompute '
            'method derives N_cells / N_sites is only changed on paths that run that method '
-           'afterwards (CFG must-follow). Generic exact dataflow facts on the anchor files: no result of a call is bound to a local that reaches no read (VALUE-dead, reaching definitions on the CFG); every self.X read names an attribute bound in the class family (ATTR-defined). The row count for negative MPS indices rounds up (GEOM-size-rounding); the corner of the box of a multi-coupling is not clamped (GEOM-box-corner); early exits of possible_(multi_)couplings cover negative coupling shapes (GEOM-shape-nonpositive).',
+           'afterwards (CFG must-follow). Generic exact dataflow facts on the anchor files: no result of a call is bound to a local that reaches no read (VALUE-dead, reaching definitions on the CFG); every self.X read names an attribute bound in the class family (ATTR-defined). The row count for negative MPS indices rounds up (GEOM-size-rounding); the corner of the box of a multi-coupling is not clamped (GEOM-box-corner); early exits of possible_(multi_)couplings cover negative coupling shapes (GEOM-shape-nonpositive). Shifted boundaries: the wrapped coordinate is recomputed after the shift in both coupling enumerations; axes are normalised before the descending expansion; the query ordering() restores every attribute it stores temporarily.',
     'C20': 'Also: the result of a task is stored before task_done() on every path; keys leave '
            '_waiting_for_load only after their load task finished (join / worker exit / assert '
-           'key in _loaded dominates). Generic exact dataflow facts on the anchor files: no result of a call is bound to a local that reaches no read (VALUE-dead, reaching definitions on the CFG); every self.X read names an attribute bound in the class family (ATTR-defined). preload never queues a second load for a key in flight (TS-no-duplicate-load); Worker.__exit__ joins the worker thread on every normal path after exit.set() (SYNC-exit-join).',
+           'key in _loaded dominates). Generic exact dataflow facts on the anchor files: no result of a call is bound to a local that reaches no read (VALUE-dead, reaching definitions on the CFG); every self.X read names an attribute bound in the class family (ATTR-defined). preload never queues a second load for a key in flight (TS-no-duplicate-load); Worker.__exit__ joins the worker thread on every normal path after exit.set() (SYNC-exit-join). emit loops iterate over a copy of the listeners; the decorator form of connect forwards all parameters; sub-containers are registered with their parent; Hdf5Storage.save removes an existing key first.',
 }
